@@ -376,14 +376,21 @@ pub fn one_case(d: &mut Draw, eng: &Engines, single: bool, known_rate: u32) -> O
         }
         // fails only together with its neighbours
         let set: BTreeSet<String> = v.fails.values().flatten().cloned().collect();
+        let iroot = if infos.iter().any(|i| findings::hits(m, rhs_of(i.output), m.decls[i.output].ty.w).contains(&"wide-copy-shares-load")) {
+            "wide-copy-shares-load"
+        } else if infos.iter().any(|i| findings::has_signed_cast_of_unsigned(m, rhs_of(i.output))) {
+            "signed-cast-shares-signedness"
+        } else {
+            "interference"
+        };
         return Outcome::fail(
-            format!("interference/{}", engines_sig(&set, &v.errors)),
+            format!("{iroot}/{}", engines_sig(&set, &v.errors)),
             format!(
                 "outputs disagree only when the expressions share a module:\n{}\n{}\n{text}",
                 v.details.join("\n"),
                 v.errors.iter().map(|(k, e)| format!("{k}: {e}")).collect::<Vec<_>>().join("\n")
             ),
-            json!({"veryl": text, "const_veryl": ctext, "top": "Top", "root": "interference",
+            json!({"veryl": text, "const_veryl": ctext, "top": "Top", "root": iroot,
                    "inputs": ports_json(&stim.inputs), "outputs": ports_json(&stim.outputs),
                    "vectors": vectors_json(&stim), "comptime_vector": ct_vec, "comptime_skip": ct_skip,
                    "expected": expected.iter().map(|r| r.iter().map(|x| x.as_ref().map(|v| format!("{v:x}"))).collect::<Vec<_>>()).collect::<Vec<_>>(),
@@ -474,11 +481,11 @@ pub fn run(ctx: &Ctx) {
     // known shapes stay visible at a low rate in `single` only
     let envn = std::env::var("C18_CASES").ok().and_then(|s| s.parse::<usize>().ok());
     let only = std::env::var("C18_SUB").ok();
-    let n1 = envn.unwrap_or(ctx.scale(650, 20_000));
+    let n1 = envn.unwrap_or(ctx.scale(450, 20_000));
     if only.as_deref() != Some("multi") {
         ctx.run("single", CaseCfg::cases(n1).choices(3000), |d| discover("C18", one_case(d, &eng, true, 10)));
     }
-    let n2 = envn.unwrap_or(ctx.scale(650, 20_000));
+    let n2 = envn.unwrap_or(ctx.scale(450, 20_000));
     if only.as_deref() != Some("single") {
         ctx.run("multi", CaseCfg::cases(n2).choices(4000), |d| discover("C18", one_case(d, &eng, false, 0)));
     }
